@@ -466,3 +466,29 @@ package keeper
 //@       && old(has(Shard, Order[msg.OrderId].Shards[j])) && old(Shard[Order[msg.OrderId].Shards[j]].Sp) == msg.Provider
 //@   loop L1 invariant -1 <= rangeindex
 //@   loop L1 invariant isProvider ==> contains(provider.TxAddresses, msg0.Creator)
+
+// Migrate: a provider hands its own completed shards to newly selected providers, which must differ from every provider that
+// already holds a shard of the same order
+//@ func (msgServer) Migrate(goCtx, msg) (resp, err)
+//@   requires msg != nil
+//@   requires forall k bytes :: rawhas(Node, k) ==> k == keyof(Node, rawget(Node, k).Creator)
+//@   requires forall c string :: has(Pledge, c) ==> i64(Pledge[c].TotalStorage - Pledge[c].UsedStorage) == Pledge[c].TotalStorage - Pledge[c].UsedStorage
+//@   requires [C16.inv.shard] forall i int :: 0 <= i && i <= MaxUint64 && has(Shard, i) ==> i < effShardCount(get(ShardCount))
+//@   requires effShardCount(get(ShardCount)) + (len(msg.Data) + 1) * 4294967296 <= MaxUint64 && (forall c string :: has(Metadata, c) ==> len(Metadata[c].Orders) < 4294967296)
+//@   modifies *
+//@   ensures [C10.migrate.actor] err == nil ==> actsFor(msg.Creator, msg.Provider, old(has(Node, msg.Provider)), old(Node[msg.Provider]))
+//@   at RandomSP assert [C15.migrate.ignore] forall i int :: 0 <= i && i < len(oldOrder.Shards) && has(Shard, oldOrder.Shards[i]) ==> contains(ignore, Shard[oldOrder.Shards[i]].Sp)
+//@   at RandomSP assert [C15.migrate.count] count == 1
+//@   at AppendShard assert [C10.migrate.own] oldShard.Sp == msg.Provider && oldShard.Status == ShardCompleted && shard.From == msg.Provider && shard.Status == ShardMigrating
+//@   loop L1 invariant -1 <= rangeindex
+//@   loop L1 invariant isProvider ==> contains(provider.TxAddresses, msg0.Creator)
+//@   loop L2 frameexcept resp
+//@   loop L2 invariant -1 <= rangeindex
+//@   loop L2 invariant forall i int :: 0 <= i && i <= MaxUint64 && has(Shard, i) ==> i < effShardCount(get(ShardCount))
+//@   loop L2 invariant effShardCount(get(ShardCount)) <= old(effShardCount(get(ShardCount))) + (rangeindex + 1) * 4294967296 && rangeindex < len(msg0.Data)
+//@   loop L2 invariant forall c string :: has(Metadata, c) ==> len(Metadata[c].Orders) < 4294967296
+//@   loop L3 invariant i < len(metadata.Orders)
+//@   loop L3 invariant forall i int :: 0 <= i && i <= MaxUint64 && has(Shard, i) ==> i < effShardCount(get(ShardCount))
+//@   loop L3 invariant -1 <= i && effShardCount(get(ShardCount)) <= entry(effShardCount(get(ShardCount))) + (len(metadata.Orders) - 1 - i)
+//@   loop L4 invariant -1 <= rangeindex && rangeindex < len(oldOrder.Shards)
+//@   loop L4 invariant forall j int :: 0 <= j && j <= rangeindex && has(Shard, oldOrder.Shards[j]) ==> contains(ignoreList, Shard[oldOrder.Shards[j]].Sp)
